@@ -225,7 +225,11 @@ MergeV(id, objs, top) ==
 \* the fitted-value terms of a stage: one lookup factor "<term>_hat" per left-hand term
 RECURSIVE JoinColon(_)
 JoinColon(es) == IF Len(es) = 1 THEN es[1] ELSE es[1] \o ":" \o JoinColon(Tail(es))
-HatTerms(ts) == OSet([i \in DOMAIN ts |-> <<Fac(JoinColon(ExprSeq(ts[i])) \o "_hat", "lookup")>>])
+\* str(term) joins repr(factor) with ":", and repr(factor) puts a name that itself contains ":" back between backticks.  TLC cannot
+\* look inside a string, so the names with a colon that the alphabets and the trace generator use are listed here.
+ColonNames == {"a:b", "b:a", "b:c:a"}
+ReprF(e) == IF e \in ColonNames THEN "`" \o e \o "`" ELSE e
+HatTerms(ts) == OSet([i \in DOMAIN ts |-> <<Fac(JoinColon([j \in DOMAIN ts[i] |-> ReprF(ts[i][j].e)]) \o "_hat", "lookup")>>])
 
 RECURSIVE Eval(_, _, _)
 Eval(node, cfg, lhsvars) ==
